@@ -401,7 +401,7 @@ def genbb_queries(db, prop, known):
                 skipped.append((name, 'NOT COVERED: ' + str(e)[:300]))
                 continue
             qs.append(Query('genbbsub/c05/%s' % name, q['c'], checks=['--no-standard-checks', '--bounds-check', '--pointer-check'],
-                            meta=q['meta'], timeout=600, extra=('--unwind', '20', '--object-bits', '12')))
+                            meta=q['meta'], timeout=600, extra=('--unwind', '20', '--unwinding-assertions', '--object-bits', '12')))
         # double-beta names: primary process + daughter cascade (+ documented alpha chain); C03 tie level table <-> cascade
         rd = genbb.readme_dbd()
         ids2 = {}
@@ -419,7 +419,7 @@ def genbb_queries(db, prop, known):
                 if pass_ == 1:
                     q['meta']['what'] = 'c05'
                     qs.append(Query('genbbsub/c05dbd/%s' % name, q['c'], checks=['--no-standard-checks', '--bounds-check', '--pointer-check'],
-                                    meta=q['meta'], timeout=900, mem_gb=20, extra=('--unwind', '20', '--object-bits', '12')))
+                                    meta=q['meta'], timeout=900, mem_gb=20, extra=('--unwind', '20', '--unwinding-assertions', '--object-bits', '12')))
     return qs, skipped
 
 
@@ -520,6 +520,10 @@ def evaluate(prop, queries, results, known, tier, seed, t0, extra_cov=None, skip
         saw_canary = False
         for p in r['props']:
             pid, kind = classify(p, what, q)
+            if (p.get('desc') or '').startswith('unwinding assertion') and p['status'] != 'SUCCESS' and q.meta.get('what') != 'kernel':
+                # a loop bound of the harness was too small: the query decides nothing
+                undecided.append((q.qid, 'unwinding assertion failed: ' + (p.get('desc') or '')))
+                continue
             if kind == 'canary':
                 saw_canary = True
                 if p['status'] != 'FAILURE':
